@@ -3,7 +3,7 @@
     Jar.v, Retry.v) is a transliteration of the Go code and is compared with it on every run (`wwh cookies`). *)
 From Coq Require Import NArith ZArith List Bool String Ascii.
 From WW Require Import Base.Bytes Gen.Params Model.CookieUrl Model.Cookie Model.Jar Model.Retry
-  Proofs.CookieP Proofs.JarP Proofs.CookieJarP.
+  Proofs.CookieP Proofs.JarP Proofs.CookieJarP Proofs.SsoProxyJarP.
 Import ListNotations.
 Open Scope Z_scope.
 
@@ -137,6 +137,70 @@ Proof.
 Qed.
 Print Assumptions c14_jar_after_logout_callback.
 
+(** SSO deployments with BOTH parties. The browser talks to the SSO server [e] (where every login happens) and to an SSO
+    proxy [pe] in front of an application on the same SSO domain; the proxy relays local and front-channel logout to the
+    server together with the request's cookies and relays the server's answer - every Set-Cookie header included - back
+    (Model/Retry.v do_request_proxy; compared with the real handler.NewSSOProxy in front of the real SSO server router
+    on every run, `wwh cookies` kind cpscript). [same_deployment]: one cookie configuration, and both hosts lie under
+    the SSO domain (the browser files the session cookie under the same Domain and Path whichever host sent it).
+    After ANY history of requests to either party, a logout - at the server, or relayed through the proxy - that is not
+    answered through the error handler leaves the browser without a session cookie for any URL: *)
+Theorem c14_jar_after_logout_sso_proxy : forall e pe steps dt (px : bool) q f mp trust now u,
+  same_deployment e pe mp CkSession ->
+  Forall (px_kind_ok e pe mp CkSession) steps -> kind_ok (if px then pe else e) mp q CkSession ->
+  (if px then q_ep q = EpLogoutLocal \/ q_ep q = EpFrontChannel
+   else q_ep q = EpLogout \/ q_ep q = EpLogoutLocal \/ q_ep q = EpFrontChannel) ->
+  let b0 := sleep (run_jar_seq_px e pe {| b_jar := []; b_now := 0; b_session := false |} steps) dt in
+  rs_kind (fst (px_step e pe px b0 q f)) = CrOther ->
+  jar_cookie trust now u (b_jar (snd (px_step e pe px b0 q f))) (cookie_name (e_cfg e) CkSession) = None.
+Proof.
+  intros e pe steps dt px q f mp trust now u Hd Hs Hq Hep b0 Hk. apply no_named_not_sent.
+  apply (px_history_cleared e pe steps dt px q f mp CkSession Hd Hs Hq).
+  - intros ->. exact Hep.
+  - fold b0. unfold px_step in *. destruct px.
+    + assert (Hrel : do_request_proxy pe b0 q f = do_request pe b0 q f).
+      { unfold do_request_proxy. destruct Hep as [-> | ->]; reflexivity. }
+      rewrite Hrel in *. rewrite do_request_response in *. destruct Hd as [Hc _]. rewrite <- Hc.
+      apply logout_clears_session; [|exact Hk]. cbn [r_ep build_request]. tauto.
+    + rewrite do_request_response in *. apply logout_clears_session; assumption.
+Qed.
+Print Assumptions c14_jar_after_logout_sso_proxy.
+
+Definition sso_cfg : kconfig :=
+  {| cf_secure := true; cf_samesite := b "Lax"; cf_prefix := b "io.nais.wonderwall";
+     cf_ingresses := [b "https://sso.example.com"];
+     cf_sso_server := true; cf_sso_domain := b "example.com"; cf_sso_name := b "sso.session"; cf_legacy := false;
+     cf_rl_enabled := false; cf_rl_logins := 5; cf_rl_window := 5000000000; cf_seg_prefix := true; cf_rl_ceil := true |}.
+
+Example c14_sso_proxy_nonvacuous :
+  let e := {| e_cfg := sso_cfg; e_ingresses := [(b "sso.example.com", [])]; e_hostport := b "sso.example.com"; e_https := true;
+              e_host := b "sso.example.com"; e_trust := false |} in
+  let pe := {| e_cfg := sso_cfg; e_ingresses := [(b "app.example.com", b "/app")]; e_hostport := b "app.example.com"; e_https := true;
+               e_host := b "app.example.com"; e_trust := false |} in
+  let login := [(false, 0, {| q_ep := EpLogin; q_path := b "/oauth2/login"; q_prompt := false |}, CFNone);
+                (false, 0, {| q_ep := EpCallback; q_path := b "/oauth2/callback"; q_prompt := false |}, CFNone);
+                (true, 0, {| q_ep := EpLogin; q_path := b "/app/oauth2/login"; q_prompt := false |}, CFNone)] in
+  let q := {| q_ep := EpLogoutLocal; q_path := b "/app/oauth2/logout/local"; q_prompt := false |} in
+  let at_app := {| u_https := true; u_host := b "app.example.com"; u_path := b "/app/page" |} in
+  let at_sso := {| u_https := true; u_host := b "sso.example.com"; u_path := b "/" |} in
+  let b1 := run_jar_seq_px e pe {| b_jar := []; b_now := 0; b_session := false |} login in
+  same_deployment e pe [] CkSession /\ Forall (px_kind_ok e pe [] CkSession) login /\ kind_ok pe [] q CkSession /\
+  jar_cookie false 1 at_app (b_jar b1) (cookie_name sso_cfg CkSession) = Some VOpaque /\
+  jar_cookie false 1 at_sso (b_jar b1) (cookie_name sso_cfg CkSession) = Some VOpaque /\
+  rs_status (fst (px_step e pe true b1 q CFNone)) = 204 /\
+  jar_cookie false 1 at_app (b_jar (snd (px_step e pe true b1 q CFNone))) (cookie_name sso_cfg CkSession) = None /\
+  jar_cookie false 1 at_sso (b_jar (snd (px_step e pe true b1 q CFNone))) (cookie_name sso_cfg CkSession) = None.
+Proof.
+  assert (K : forall env q0, cf_sso_server (e_cfg env) = true ->
+                e_mp env (q_path q0) = [] \/ wf_path (e_mp env (q_path q0)) -> kind_ok env [] q0 CkSession).
+  { intros env q0 Hs Hw. left. split; [reflexivity|]. split; [now left|exact Hw]. }
+  split; [split; reflexivity|]. split.
+  { apply Forall_cons; [|apply Forall_cons; [|apply Forall_cons; [|apply Forall_nil]]]; unfold px_kind_ok;
+      (apply K; [reflexivity|]); vm_compute; first [now left | right; eexists; reflexivity]. }
+  split. { apply K; [reflexivity|]. vm_compute. right. eexists. reflexivity. }
+  vm_compute. repeat split; reflexivity.
+Qed.
+
 (** Refutation of (4) without the same-matching-path hypothesis: two ingresses on one host with nested paths.
     Login under "/" stores the session cookie with Path=/; the local logout of the application under /app answers
     204 and clears Path=/app; the browser still sends the session cookie to every URL of the host. *)
@@ -174,6 +238,17 @@ Definition single_cfg : kconfig :=
      cf_ingresses := [b "https://h.example.com/app"];
      cf_sso_server := false; cf_sso_domain := []; cf_sso_name := []; cf_legacy := false;
      cf_rl_enabled := true; cf_rl_logins := 5; cf_rl_window := 5000000000; cf_seg_prefix := true; cf_rl_ceil := true |}.
+
+(** Names: "the same name ... it used when setting it" presupposes that a name identifies a cookie: for every prefix, every
+    mode and every sso.session-cookie-name other than wonderwall's own two fixed names (the login counter's and the legacy
+    cookie's) the six cookie names are pairwise different, so no Set-Cookie of one kind ever replaces or clears a cookie of
+    another kind in the browser. *)
+Theorem c14_cookie_names_pairwise_distinct : forall cfg k1 k2,
+  (cf_sso_server cfg = true ->
+   cf_sso_name cfg <> with_prefix default_prefix n_logincount /\ cf_sso_name cfg <> n_legacy) ->
+  k1 <> k2 -> cookie_name cfg k1 <> cookie_name cfg k2.
+Proof. exact names_distinct_all. Qed.
+Print Assumptions c14_cookie_names_pairwise_distinct.
 
 Example c14_nonvacuous :
   let e := env_of single_cfg "h.example.com" in
